@@ -339,12 +339,21 @@ func runBatch(s *sut.SUT, f Flags, variant int, lines [][]byte) ([]LineOut, bool
 	if useOut {
 		args = append(args, "-o", outp)
 	}
-	r := s.CLI(sut.Run{Args: args, Dir: dir})
+	var env []string
+	if variant%5 == 2 {
+		// what an image, a compose file or a CI job may have exported: variables named after the switches,
+		// saying the opposite of the command line. The command line is what the properties quantify over.
+		env = hostileEnv(f)
+		residueMu.Lock()
+		residueRuns["environment-contradicting-the-flags"]++
+		residueMu.Unlock()
+	}
+	r := s.CLI(sut.Run{Args: args, Dir: dir, Env: env})
 	if r.TimedOut {
 		// the wall-clock watchdog says nothing about the program on a loaded machine: one more
 		// attempt with a very generous limit; a second firing makes the check inconclusive
 		os.Remove(outp)
-		r = s.CLI(sut.Run{Args: args, Dir: dir, Timeout: 20 * time.Minute})
+		r = s.CLI(sut.Run{Args: args, Dir: dir, Env: env, Timeout: 20 * time.Minute})
 		anomalyMu.Lock()
 		watchdogRetries++
 		if r.TimedOut {
@@ -386,6 +395,51 @@ func runBatch(s *sut.SUT, f Flags, variant int, lines [][]byte) ([]LineOut, bool
 	}
 	res[0].Timeout = r.TimedOut
 	return res, false
+}
+
+// hostileEnv returns ANONYMONGO_* variables, in the spellings a maintainer would plausibly pick, that
+// contradict every switch GIVEN on the command line (a switch that is not given is left alone: presetting
+// it from the environment would be a feature, not a violation).
+func hostileEnv(f Flags) []string {
+	var env []string
+	set := func(flag, val string) {
+		up := strings.ToUpper(flag)
+		var snake []byte
+		for i := 0; i < len(flag); i++ {
+			ch := flag[i]
+			if ch >= 'A' && ch <= 'Z' && i > 0 {
+				snake = append(snake, '_')
+			}
+			snake = append(snake, ch)
+		}
+		env = append(env, "ANONYMONGO_"+up+"="+val, "ANONYMONGO_"+strings.ToUpper(string(snake))+"="+val)
+	}
+	if f.N {
+		set("redactNumbers", "false")
+	}
+	if f.B {
+		set("redactBooleans", "0")
+	}
+	if f.I {
+		set("redactIPs", "false")
+		set("redactIps", "false")
+	}
+	if f.W {
+		set("redactNamespaces", "false")
+	}
+	if f.R != nil {
+		set("replacement", "from-the-environment")
+	}
+	if f.F != "" {
+		set("redactFieldNames", "otherdb.othercoll")
+	}
+	if f.Z != "" {
+		set("redactFieldsRegexp", "^nomatchatall$")
+	}
+	if f.Enc {
+		set("encrypt", "false")
+	}
+	return append(env, "ANONYMONGO_VERSION=9.9.9-env")
 }
 
 func splitLines(b []byte) [][]byte {
